@@ -426,6 +426,21 @@ def check_block(crate, rep, cfg):
         rep.add("C04.BLOCK", "C04.BLOCK:vm:capture-stack-aside", ok, vm.where(capt[0][0]) if capt else vm.where(0), "while the requested block renders into its private buffer the capture "
                 "stack is put aside (mem::take), put back on every path before the next instruction or a return, and the text is then appended to the innermost enclosing capture"
                 + ("" if ok else " — VIOLATED: " + why))
+    # every RenderBlock renders its block: from the arm's entry, the next instruction is reached only through the nested interpret — never
+    # by stepping over the block (a block that is skipped when it "cannot matter" changes what the blocks after it see and write)
+    from props.c09 import variant_switches
+    heads = {bb for bb, t in find_calls(vm, ["parsing::instructions::Chunk::get"])}
+    ok = len(inner) >= 1
+    why = "no nested interpret in the arm"
+    for sb, listed in variant_switches(vm, crate, "instructions::Instruction"):
+        if "RenderBlock" in listed and len(listed) > 8:
+            reach = vm.reach_from(listed["RenderBlock"], removed_blocks=frozenset({x[0] for x in inner} | {sb}))
+            hit = sorted(reach & heads)
+            if hit:
+                ok = False
+                why = "the next fetch (%s) is reachable from the arm entry without running the block" % vm.where(hit[0])
+    rep.add("C04.BLOCK", "C04.BLOCK:vm:every-block-renders", ok, vm.where(inner[0][0]) if inner else vm.where(0), "every path through the RenderBlock arm to the next instruction runs the "
+            "block's chunk (nested interpret); the only other exits are error returns" + ("" if ok else " — VIOLATED: " + why))
     writers = sorted({crate.root_of(a["body"]).path for a in field_accesses(crate, "vm::state::State", "block_buffer")
                       if a["kind"] not in ("read",) and not (a["kind"] == "call" and not a["mut"])})
     ok = set(writers) <= {VM, "vm::state::State::<'t>::new"}
